@@ -143,8 +143,15 @@ def excel_rows(source_path, sheet=1):
                     location.advance_cell()
                 yield row
                 location.advance_line()
-    except (errors.CutplaceError, EnvironmentError):
+    except errors.CutplaceError:
         raise
+    except EnvironmentError as error:
+        if error.filename is not None:
+            # The file itself cannot be accessed, for example because it does not exist.
+            raise
+        # An error of the operating system that is not about a certain file stems from broken contents, for example
+        # a ZIP directory pointing to a position outside of the file.
+        raise errors.DataFormatError("cannot read Excel file: %s" % error, location)
     except UnicodeError as error:
         raise errors.DataFormatError("cannot decode Excel data: %s" % error, location)
     except Exception as error:
